@@ -170,3 +170,6 @@
 #ifndef VH_HAVE_complex
     #define VH_HAVE_complex 1
 #endif
+#ifndef VH_HAVE_nextafter_l
+    #define VH_HAVE_nextafter_l 1
+#endif
